@@ -11,6 +11,7 @@ CONSTANTS
   SkipLock = "none"
   TxNoLock = TRUE
   WalGuard = TRUE
+  WalOwnerTest = FALSE
   Exclude = {}
   Gated = FALSE
   EmitEdges = FALSE
